@@ -377,7 +377,7 @@ func GenC04(seed uint64, tier string) *Plan {
 		switch g.r.Weighted([]int{50, 14, 10, 8, 6, 6, 6}) {
 		case 0:
 			st, hints := g.condRequest()
-			g.commit(st, hints)
+			g.commit(g.goneClient(st), hints)
 		case 1: // unconditional PUT by "another client": makes remembered tags stale
 			p := g.pickPath("file")
 			st := g.newStep("PUT", g.spell(p))
